@@ -1810,8 +1810,9 @@ def GET_EYE(
     eye_dict["mu0"] = mu0 = np.mean(y_bot, where=~np.isnan(y_bot))
     eye_dict["s0"] = s0 = np.std(y_bot, where=~np.isnan(y_bot))
 
-    # compute umbral
-    x = np.linspace(mu0, mu1, 500)
+    # compute umbral: the valley is searched between the bulks of the two populations (two deviations inside each level), where
+    # a dip of the density INSIDE one population (a level split by inter-symbol interference, a handful of samples) cannot be taken for it
+    x = np.linspace(mu0 + 2*s0, mu1 - 2*s1, 500) if mu0 + 2*s0 < mu1 - 2*s1 else np.linspace(mu0, mu1, 500)
     y = input[centre]
     
     try:
